@@ -47,15 +47,31 @@ impl WalPathManager {
         self.ensure_root()?;
         let file_name = now_millis_str();
         let path = self.root.join(&file_name);
+        #[cfg(walrus_verif)]
+        if crate::wal::verif::io_event("create", &file_name, 0, 0) == crate::wal::verif::IoDecision::Fail {
+            return Err(crate::wal::verif::injected_error());
+        }
         let f = std::fs::File::create(&path)?;
+        #[cfg(walrus_verif)]
+        if crate::wal::verif::io_event("set_len", &file_name, 0, MAX_FILE_SIZE) == crate::wal::verif::IoDecision::Fail {
+            return Err(crate::wal::verif::injected_error());
+        }
         f.set_len(MAX_FILE_SIZE)?;
 
         // Sync file metadata (size, etc.) to disk
+        #[cfg(walrus_verif)]
+        if crate::wal::verif::io_event("sync_file", &file_name, 0, 0) == crate::wal::verif::IoDecision::Fail {
+            return Err(crate::wal::verif::injected_error());
+        }
         f.sync_all()?;
 
         // CRITICAL for Linux: Sync parent directory to ensure directory entry is durable
         // Without this, the file might exist but not be visible in directory listing after crash
         let dir = std::fs::File::open(&self.root)?;
+        #[cfg(walrus_verif)]
+        if crate::wal::verif::io_event("sync_dir", "", 0, 0) == crate::wal::verif::IoDecision::Fail {
+            return Err(crate::wal::verif::injected_error());
+        }
         dir.sync_all()?;
 
         Ok(path.to_string_lossy().into_owned())
